@@ -1964,7 +1964,8 @@ class TLSConnection(TLSRecordLayer):
 
             #Exchange ChangeCipherSpec and Finished messages
             for result in self._getFinished(session.masterSecret,
-                                            session.cipherSuite):
+                                            session.cipherSuite,
+                                            settings=settings):
                 yield result
             # buffer writes so that CCS and Finished go out in one TCP packet
             self.sock.buffer_writes = True
@@ -2237,7 +2238,8 @@ class TLSConnection(TLSRecordLayer):
         self.sock.buffer_writes = False
         for result in self._getFinished(masterSecret,
                                         cipherSuite,
-                                        nextProto=nextProto):
+                                        nextProto=nextProto,
+                                        settings=settings):
             yield result
         yield masterSecret
 
@@ -4335,7 +4337,8 @@ class TLSConnection(TLSRecordLayer):
                                                  settings=settings):
                     yield result
                 for result in self._getFinished(session.masterSecret,
-                                                session.cipherSuite):
+                                                session.cipherSuite,
+                                                settings=settings):
                     yield result
 
                 #Set the session
@@ -5171,7 +5174,8 @@ class TLSConnection(TLSRecordLayer):
         #Exchange ChangeCipherSpec and Finished messages
         for result in self._getFinished(masterSecret,
                                         cipherSuite,
-                                   expect_next_protocol=nextProtos is not None):
+                                   expect_next_protocol=nextProtos is not None,
+                                        settings=settings):
             yield result
 
         for result in self._sendFinished(masterSecret, cipherSuite,
@@ -5201,9 +5205,6 @@ class TLSConnection(TLSRecordLayer):
 
         if self._peer_record_size_limit:
             self._send_record_limit = self._peer_record_size_limit
-            # this is TLS 1.2 and earlier method, so the real limit may be
-            # lower that what's in the settings
-            self._recv_record_limit = min(2**14, settings.record_size_limit)
 
         if nextProto is not None:
             nextProtoMsg = NextProtocol().create(nextProto)
@@ -5231,7 +5232,8 @@ class TLSConnection(TLSRecordLayer):
         self.sock.buffer_writes = False
 
     def _getFinished(self, masterSecret, cipherSuite=None,
-                     expect_next_protocol=False, nextProto=None):
+                     expect_next_protocol=False, nextProto=None,
+                     settings=None):
 
         expect_ccs_message = True
         # If we use SessionTicket resumption on client side, there are multiple
@@ -5289,6 +5291,14 @@ class TLSConnection(TLSRecordLayer):
 
         # Switch to pending read state
         self._changeReadState()
+
+        # our record size limit binds protected records only (RFC 8449,
+        # section 4): a NewSessionTicket that precedes the peer's
+        # ChangeCipherSpec is not subject to it
+        if self._peer_record_size_limit and settings:
+            # this is TLS 1.2 and earlier method, so the real limit may be
+            # lower that what's in the settings
+            self._recv_record_limit = min(2**14, settings.record_size_limit)
 
         # Server Finish - Are we waiting for a next protocol echo?
         if expect_next_protocol:
